@@ -11,6 +11,13 @@ THEOREMS = ["c04_delete_is_delete_all", "c04_no_dangling", "c04_victims_unreacha
 # scripted beginnings that build the link topologies deletion has to cope with: several sources of
 # ONE subtree linked from the same entity; an array referenced from groups and tags of its block
 PRELUDES = [
+    # features addressed by the id / the name of their data: the FEATURE goes, the array, its group membership and the tag's
+    # reference to it stay
+    [["create", 0, "CBlocks", "B", "t", []], ["create", 1, "CDataArrays", "a", "t", [1]], ["create", 1, "CDataArrays", "b", "t", [2]],
+     ["create", 1, "CGroups", "g", "t", []], ["create", 1, "CTags", "t", "t", [1]], ["append", 4, "LDataArrays", 2],
+     ["append", 5, "LReferences", 2], ["create_feature", 5, 2, "untagged"], ["create_feature", 5, 3, "indexed"],
+     ["delete", 5, "CFeatures", ["idof", 2]], ["lookup", 5, "CFeatures", ["name", "b"]], ["delete", 5, "CFeatures", ["name", "b"]],
+     ["create_feature", 5, 2, "tagged"], ["delete", 5, "CFeatures", ["name", "a"]]],
     # a metadata link set and cleared again on every kind that can carry one (a leaf source, a source with a child,
     # a group / array / tag / multi-tag / data frame without other children, a block): clearing never deletes the owner
     [["create", 0, "CSections", "m", "t", []], ["create", 0, "CBlocks", "B", "t", []], ["create", 2, "CSources", "leaf", "t", []],
